@@ -558,6 +558,20 @@ fn run_direct(kind: usize, fgi: usize, bgi: usize, data: &[u8], file: &mut Optio
 
 fn main_check(ctx: &Ctx) -> Outcome {
     let mut out = Outcome::default();
+    // the functions under test must not consult the environment: a few representative inputs under a cleared and two
+    // hostile settings of the colour-related variables (before any worker thread exists)
+    fn env_digest() -> Vec<String> {
+        { use anstyle_wincon::WinconStream as _; [(None, None), (Some(anstyle::AnsiColor::Red), None), (None, Some(anstyle::AnsiColor::BrightBlue)), (Some(anstyle::AnsiColor::White), Some(anstyle::AnsiColor::Black))].iter().map(|&(fg, bg)| { let mut v: Vec<u8> = Vec::new(); let r = v.write_colored(fg, bg, b"data\n"); format!("{:?} {:?}", r.map_err(|e| e.kind()), v) }).collect::<Vec<String>>() }
+    }
+    if let Err(m) = vexplore::util::env_independence(env_digest) {
+        out.findings.push(Finding {
+            system: "write_colored".into(),
+            clause: "environment-dependence".into(),
+            case: vec!["representative inputs".into()],
+            message: m.chars().take(900).collect(),
+            replay: serde_json::json!({"kind":"env"}),
+        });
+    }
     let quick = ctx.quick();
     let opts = Opts { strict_progress: ctx.opt("strict_progress") == Some("1") };
     let max_points: usize = ctx.opt("points").and_then(|p| p.parse().ok()).unwrap_or(if quick { 4 } else { 8 });
@@ -832,6 +846,7 @@ fn replay(v: &Value) -> Result<(), String> {
                 _ => Ok(()),
             }
         }
+        "env" => Err("environment-dependence findings are replayed by re-running the check".into()),
         k => Err(format!("unknown replay kind {k}")),
     }
 }
